@@ -51,6 +51,16 @@ thread_local! {
     /// 1 = preemption requested, 2 = yielded to the outer executor
     static PREEMPT: RefCell<BTreeMap<Pid, u8>> = const { RefCell::new(BTreeMap::new()) };
     static CURRENT: Cell<Option<Pid>> = const { Cell::new(None) };
+    static OFD_SERIAL: Cell<u64> = const { Cell::new(0) };
+}
+
+/// Returns a fresh serial number for an open file description.
+pub fn next_ofd_serial() -> u64 {
+    OFD_SERIAL.with(|c| {
+        let n = c.get() + 1;
+        c.set(n);
+        n
+    })
 }
 
 /// Installs (or removes) the hook for the current thread.
@@ -58,6 +68,7 @@ pub fn install(hook: Option<Rc<dyn SimHook>>) {
     HOOK.with(|h| *h.borrow_mut() = hook);
     PREEMPT.with(|p| p.borrow_mut().clear());
     CURRENT.with(|c| c.set(None));
+    OFD_SERIAL.with(|c| c.set(0));
 }
 
 fn hook() -> Option<Rc<dyn SimHook>> {
